@@ -39,8 +39,8 @@ PAIRS = {
     "pwl_cost": ("create_pwl_cost", "create_pwl_costs", "pwl_cost"),
 }
 PAIR_WEIGHTS = {"bus": 2, "line": 4, "line_fp": 3, "trafo": 5, "trafo_fp": 3, "trafo3w": 3, "trafo3w_fp": 2, "load": 2,
-                "sgen": 2, "gen": 2, "storage": 2, "shunt": 3, "ward": 2, "switch": 3, "impedance": 2, "poly_cost": 3,
-                "pwl_cost": 3}
+                "sgen": 2, "gen": 2, "storage": 2, "shunt": 3, "ward": 2, "switch": 4, "impedance": 2, "poly_cost": 5,
+                "pwl_cost": 5}
 # single-parameter name -> batch-parameter name (everything else is spelled the same)
 BATCH_NAME = {"bus": "buses", "from_bus": "from_buses", "to_bus": "to_buses", "hv_bus": "hv_buses", "mv_bus": "mv_buses",
               "lv_bus": "lv_buses", "element": "elements"}
@@ -228,7 +228,7 @@ def custom_trafo_type(draw, vh, vl):
          "i0_percent": draw(q(0.0, 0.5, 2)), "shift_degree": draw(st.sampled_from([150, 150, 150, 0, 30, 180, -30]))}
     if draw(st.integers(0, 3)):
         d.update(draw(tap_block()))
-    if draw(st.integers(0, 3)) == 0:
+    if draw(st.integers(0, 2)) == 0:
         d.update(draw(tap_block(prefix="tap2")))
     if draw(st.integers(0, 2)) == 0:
         d["vector_group"] = draw(st.sampled_from(["Dyn", "YNyn", "Yzn"]))
@@ -621,9 +621,6 @@ def gen_storage(draw, ctx, n, existing):
 
 def gen_shunt(draw, ctx, n, existing):
     a = {"bus": {"v": bus_vec(draw, ctx, n)}, "q_mvar": col(draw, n, PWR)}
-    if n >= 2 and ctx.invalid is None and maybe(draw, 3):
-        # buses whose labels may coincide with the labels of the new shunts (0..n-1), on different voltage levels
-        a["bus"] = {"v": list(draw(st.permutations([0, ctx.ps[20.0][0], ctx.ps[10.0][0], ctx.ps[0.4][0], 1][:max(n, 2)])))[:n]}
     add(a, draw, n, "p_mw", PPOS, 4)
     if maybe(draw, 4):
         # None (= rated voltage of the bus) is documented for the argument as a whole, not for single vector entries
@@ -635,6 +632,12 @@ def gen_shunt(draw, ctx, n, existing):
     add(a, draw, n, "id_characteristic_table", st.sampled_from([None, 0, 1]), 1)
     tag(a, draw, n)
     index_col(draw, ctx, n, existing, a)
+    if n >= 2 and ctx.invalid is None and maybe(draw, 4):
+        # shape: the labels of the referenced buses are also labels of the new rows (in another order)
+        ps = [p for p in draw(st.permutations(list(range(ctx.nbt)))) if ctx.bus_index[p] not in existing][:n]
+        if len(ps) == n:
+            a["bus"] = {"v": ps}
+            a["index"] = {"v": [ctx.bus_index[p] for p in draw(st.permutations(ps))]}
     return a
 
 
@@ -782,9 +785,9 @@ GEN = {"bus": gen_bus, "line": gen_line, "line_fp": gen_line_fp, "trafo": gen_tr
 INVALID = {
     "default": [(None, 24), ("missing-bus", 2), ("dup-index", 2), ("index-exists", 2)],
     "bus": [(None, 24), ("dup-index", 3), ("index-exists", 3)],
-    "switch": [(None, 22), ("missing-bus", 2), ("dup-index", 1), ("index-exists", 1), ("switch-not-connected", 3),
-               ("switch-unknown-element", 1)],
-    "cost": [(None, 16), ("dup-cost-existing", 6), ("dup-cost-within", 5), ("dup-index", 1), ("index-exists", 2)],
+    "switch": [(None, 16), ("missing-bus", 2), ("dup-index", 1), ("index-exists", 1), ("switch-not-connected", 6),
+               ("switch-unknown-element", 2)],
+    "cost": [(None, 12), ("dup-cost-existing", 6), ("dup-cost-within", 5), ("dup-index", 1), ("index-exists", 2)],
 }
 
 
@@ -806,6 +809,7 @@ def case(draw, tier="quick", pairs=None):
     cost = pair in ("poly_cost", "pwl_cost")
     inv = wdraw(draw, INVALID["cost" if cost else pair if pair in INVALID else "default"])
     ctx = Ctx(nb, n, inv)
+    ctx.bus_index = bus_index
     base_n = existing_count(nb, table)
     existing = set(bus_index) if pair == "bus" else set(range(base_n))
 
@@ -822,6 +826,7 @@ def case(draw, tier="quick", pairs=None):
     elif draw(st.integers(0, 2)) > 0:
         k0 = draw(st.integers(1, 2))
         pctx = Ctx(nb, k0, None)
+        pctx.bus_index = bus_index
         pctx.std = ctx.std
         pargs = GEN[pair](draw, pctx, k0, set())
         pargs.pop("index", None)
